@@ -138,3 +138,25 @@ Print Assumptions accepted_multiplier_fees_defined.
 Theorem reassign_has_no_production_caller : Gen.C14.reassign_production_callers = [].
 Proof. exact reassign_not_reachable. Qed.
 Print Assumptions reassign_has_no_production_caller.
+
+
+(* --- source translation tie (GenFn) --- *)
+(* The Go function bodies named below are re-translated from the source on every check
+   (harness/cmd/extract/gotrans*.go -> GenFn/*.v, semantics of the Go subset: Trans/GoSem.v).
+   Each theorem states that the hand-written model function equals the translated body for all
+   inputs (hypotheses are Go type ranges / the 256-bit range of math.Int only); the proofs are in
+   Trans/C14Fn.v.  A readable change of the Go body breaks the proof, an unreadable one breaks the
+   translator.  See design/GoTrans.md. *)
+From Paloma Require Trans.GoSem Trans.GoSemFacts Trans.C14Fn.
+
+Theorem mul_ceil_u64_model_is_translation_of_source :
+  forall d n : Z,
+  GenFn.MulCeilUint64.mulCeilUint64 (Some d) n = match Fees.mul_ceil_u64 d n with Some v => GoSem.Val v | None => GoSem.Fail end.
+Proof. exact Trans.C14Fn.mul_ceil_eq. Qed.
+Print Assumptions mul_ceil_u64_model_is_translation_of_source.
+
+Theorem valid_multiplier_model_is_translation_of_source :
+  forall m : Z,
+  GenFn.ValidateMultiplicator.validateMultiplicator (Some m) = if Fees.valid_multiplier m then GoSem.Val tt else GoSem.Fail.
+Proof. exact Trans.C14Fn.valid_multiplier_eq. Qed.
+Print Assumptions valid_multiplier_model_is_translation_of_source.
